@@ -40,16 +40,20 @@ DEP_CLASSES = [
     urwid.Button, urwid.CheckBox, urwid.RadioButton,
 ]
 
-# Obligations of (b) that fail on the unchanged tree — each replayed on the real classes (cached render != render
-# after CanvasCache.clear()); left in, excluded from nothing:
-# FAILS-ON-TREE: Pile.render     p = Pile([Text("a"), inner]) with inner = Pile([]) (0 rows): p.render((5,)); then
+# Obligations of (b) that failed on the tree before the four fixes below — each replayed on the real classes (cached
+# render != render after CanvasCache.clear()); they are ordinary obligations now, excluded from nothing:
+# failed before fix: Pile.render registers a cache dependency on every item, also on items it does not draw
+#                p = Pile([Text("a"), inner]) with inner = Pile([]) (0 rows): p.render((5,)); then
 #                inner.contents.append((Text("x"), ("pack", None))); p.render((5,)) still shows ['a    '] (fresh: 'a','x');
 #                same with Pile([inner]) alone: the blank SolidCanvas exit (`if not combinelist`) has no dependency at all.
-# FAILS-ON-TREE: Columns.render  c = Columns([("pack", t), Text("b")]) with t = Text("") (packs to 0 columns, column hidden):
+# failed before fix: Columns.render registers a cache dependency on every column, also on the hidden ones
+#                c = Columns([("pack", t), Text("b")]) with t = Text("") (packs to 0 columns, column hidden):
 #                c.render((6,)); t.set_text("zz"); c.render((6,)) still shows 'b     ' (fresh: 'zzb   ').
-# FAILS-ON-TREE: Frame.render    f = Frame(SolidFill("."), header=h) with h = Pile([]) (0 rows => htrim == 0, header not rendered):
+# failed before fix: Frame.render registers a cache dependency on a header / footer it measured but did not draw
+#                f = Frame(SolidFill("."), header=h) with h = Pile([]) (0 rows => htrim == 0, header not rendered):
 #                f.render((4,3)); h.contents.append((Text("HDR"), ("pack", None))); f.render((4,3)) still has no header row.
-# FAILS-ON-TREE: Overlay.render  o = Overlay(t, SolidFill("."), "center", ("relative", 100), "top", "pack") with t = Pile([]):
+# failed before fix: Overlay.render registers a cache dependency on top_w when only bottom_w is drawn
+#                o = Overlay(t, SolidFill("."), "center", ("relative", 100), "top", "pack") with t = Pile([]):
 #                o.render((6,)) has 0 rows (exit `not bottom_c.rows()`); t.contents.append((Text("hey"), ("pack", None)));
 #                o.render((6,)) and o.rows((6,)) still answer 0 rows (fresh: 1 row 'hey   ').
 # In all four the child was consulted through rows()/pack() only, was never rendered, so it is not in the cache and its
